@@ -234,6 +234,38 @@ EQ_RELS = {"Eq", "Ne", "true", "false", "is", "isnot", "in", "notin"}
 ORD_RELS = {"Le", "Lt", "range", "notrange"}
 
 
+def _c_bound(c):
+    """('A', k) for `x >= k` / `x < k`, ('B', k) for `x > k` / `x <= k` when exactly one side of an ordering is one integer
+    constant (a literal or a macro with a known value); None otherwise"""
+    if c.get("cls") != "ord" or c.get("op") not in ("<", "<=", ">", ">="):
+        return None
+    text = c["text"]
+    m = re.match(r"^(.*?)\s(<=|>=|<|>)\s(.*)$", text)
+    if not m:
+        return None
+    left, op, right = m.group(1).strip(), m.group(2), m.group(3).strip()
+
+    def const_of(t):
+        t = t.strip("() ")
+        if re.fullmatch(r"-?\s*(0[xX][0-9a-fA-F]+|\d+)[uUlL]*", t):
+            return int(re.sub(r"[uUlL\s]+", "", t), 0)
+        v = c.get("macro_values", {}).get(t)
+        if v is None:
+            for mapped, rawn in (c.get("raw") or {}).items():
+                if rawn == t:
+                    v = c.get("macro_values", {}).get(mapped)
+        return v if isinstance(v, int) else None
+    lk, rk = const_of(left), const_of(right)
+    if (lk is None) == (rk is None):
+        return None
+    if rk is not None:
+        k = rk
+    else:
+        k = lk
+        op = {"<": ">", "<=": ">=", ">": "<", ">=": "<="}[op]
+    return ("A", k) if op in (">=", "<") else ("B", k)
+
+
 def matches(c, s, toks):
     if c["cls"] == "eq" and s.rel not in EQ_RELS:
         # `x != 0` in C may be `0 < x` in Rust for unsigned values
@@ -258,6 +290,18 @@ def matches(c, s, toks):
     near = sconsts | {x + 1 for x in sconsts} | {x - 1 for x in sconsts}
     macro_vals = set(c.get("macro_values", {}).values())
     by_value = False
+    # an ordering against one constant (`x >= 3`, `MAX < y`): the tolerance of one is exactly the change of strictness,
+    # `x >= k` is `k <= x`, `k-1 < x`, or the negation of `x < k` / `x <= k-1` - not `x >= k+1`
+    bound = _c_bound(c)
+    if bound is not None and s.rel in ("Le", "Lt") and (s.lo_consts or s.hi_consts) and not (s.lo_consts and s.hi_consts):
+        kind, k = bound
+        if kind == "A":     # x >= k  /  x < k
+            okset = {("Le", "lo", k), ("Lt", "lo", k - 1), ("Lt", "hi", k), ("Le", "hi", k - 1)}
+        else:               # x > k  /  x <= k
+            okset = {("Lt", "lo", k), ("Le", "lo", k + 1), ("Le", "hi", k), ("Lt", "hi", k + 1)}
+        have = {(s.rel, "lo", v) for v in s.lo_consts if isinstance(v, int)} | {(s.rel, "hi", v) for v in s.hi_consts if isinstance(v, int)}
+        if have and not (have & okset):
+            return False
     for n in c["names"]:
         nl = n.lower()
         if nl in own or n in s.names:
@@ -469,6 +513,56 @@ def rust_opassigns(fns):
     return out
 
 
+def c_minmax(body, macros=None):
+    """[(kind, sorted field/macro tokens of the arguments)] for every MIN(..)/MAX(..) of a C function body"""
+    out = []
+    for m in re.finditer(r"\b(MIN|MAX)\s*\(", body):
+        i, d = m.end(), 1
+        while i < len(body) and d:
+            d += body[i] == "("
+            d -= body[i] == ")"
+            i += 1
+        args = body[m.end():i - 1]
+        toks = set()
+        for f in re.findall(r"(?:->|\.)\s*(\w+)", args):
+            toks.add(f.lower())
+        for n in re.findall(r"\b([A-Z][A-Z0-9_]{2,})\b", args):
+            toks.add(n.lower())
+        if toks:
+            out.append((m.group(1).lower(), sorted(toks)))
+    return out
+
+
+def rust_minmax(fns):
+    """[(kind, tokens)] for every min/max call: field names, constant names and callee names inside its arguments"""
+    out = []
+    for f in fns:
+        for c in f.live_calls(r"(?:^|::)(?:min|max)$"):
+            kind = c.callee.split("::")[-1]
+            toks = set()
+            for a in f.call_args(c):
+                for x in mir.walk(a):
+                    if not isinstance(x, tuple) or not x:
+                        continue
+                    if x[0] == "f":
+                        toks.add(str(x[2]).lower())
+                    elif x[0] == "c" and len(x) > 2 and x[2]:
+                        toks.add(str(x[2]).split("::")[-1].lower())
+                    elif x[0] == "call" and isinstance(x[1], str):
+                        toks.add(x[1].split("::")[-1].lower())
+            out.append((kind, toks))
+    return out
+
+
+def _minmax_ok(kind, ctoks, rmm):
+    for k2, rt in rmm:
+        if k2 != kind:
+            continue
+        if all((ALIAS.get(t, {t}) | {t}) & rt for t in ctoks):
+            return True
+    return False
+
+
 def rust_callee_names(fns):
     out = set()
     for f in fns:
@@ -583,6 +677,12 @@ def check(ck, P, rule, only=None):
             ck.decide(not extra, rule, "%s:update:%s:only" % (cname, cf), "no other in-place operator on that field",
                       "%s now updates `%s` in place with %s, which neither zlib-ng's %s nor the port did: the direction or kind of an "
                       "in-place update has changed" % (", ".join(f.path.replace(Z, "") for f in fns), cf, "/".join(extra), cname), where(fns[0]))
+        rmm = rust_minmax(allf)
+        for kind, ctoks in table.get("minmax", {}).get(key, []):
+            n += 1
+            ck.decide(_minmax_ok(kind, ctoks, rmm), rule, "%s:%s:%s" % (cname, kind, "+".join(ctoks)), "clamp still applied",
+                      "zlib-ng's %s clamps with %s(.. %s ..); %s (with its helpers) no longer takes that %s: a length or count of the "
+                      "reference is no longer bounded" % (cname, kind.upper(), ", ".join(ctoks), ", ".join(f.path.replace(Z, "") for f in fns), kind), where(fns[0]))
         lits = rust_literals(allf)
         for v in table.get("literals", {}).get(key, []):
             n += 1
